@@ -13,6 +13,7 @@
  *   pax <recordhex>                            read_pax_header
  *   spnew <record_size> <streamhex>            read_gnu_new_sparse
  *   spold <headerhex> <streamhex>              read_gnu_old_sparse
+ *   rh <streamhex>                             read_header (the whole loop: extension records, decode_header, sparse maps)
  *   gl <B> <flags> <content>...                istream_get_line until end of input, on the real buffered file
  *                                              istream (sqfs_istream_open_file) over a temporary file holding the
  *                                              content; content tokens: h<hex> literal bytes, r<count>x<hh> a run.
@@ -78,6 +79,14 @@ static const struct diag diag_spold[] = {
 static const struct diag diag_dfn[] = {
 	{ "Unmatched", 1 }, { "Unknown escape sequence", 2 }, { "Unexpected characters after", 3 },
 	{ "Malformed filename", 4 }, { NULL, 0 } };
+static const struct diag diag_rh[] = {
+	{ "invalid tar header checksum", 3 }, { "unexpected end of input inside a tar header", 1 },
+	{ "input is not a ustar tar archive", 2 }, { "rejecting GNU symlink header", 4 }, { "rejecting GNU long path header", 5 },
+	{ "rejecting PAX header", 6 }, { "sparse file map does not fit", 7 }, { "Reading tar record: unexpected end-of-file", 9 },
+	{ "Found a malformed PAX header", 11 }, { "Numeric overflow in PAX header", 12 },
+	{ "Malformed decimal value in pax header", 13 }, { "malformed GNU pax sparse file record", 14 },
+	{ "Malformed GNU 1.0 style sparse file map", 15 }, { "reading GNU sparse header: unexpected end-of-file", 16 },
+	{ "skipping tar padding", 17 }, { "skipping padding", 18 }, { "numeric overflow parsing tar header", 8 }, { NULL, 0 } };
 static const struct diag diag_xdec[] = { { "bad input encoding", 1 }, { NULL, 0 } };
 
 /* ---- gl: the content of a text input, run-length coded ---- */
@@ -287,6 +296,53 @@ int main(void)
 			{ const char *d = cap_end(); if (m == NULL) printf("fail %d\n", classify(d, diag_spold)); }
 			if (m != NULL) { printf("ok %zu", drain(fp)); show_sparse(m); putchar('\n'); free_sparse_list(m); }
 			sqfs_drop(fp); free(hd); free(st);
+		} else if (!strcmp(op, "rh") && n == 1) {
+			/* every member of the stream: read_header, then skip the record data and its padding the way the tar
+			   iterator does (at most 64 members); results joined by " ; " */
+			unsigned char *st; long len = hex_decode_tok(a[0], &st, 0);
+			size_t off = 0; int k;
+			if (len < 0) { puts("bad-op"); continue; }
+			for (k = 0; k < 64; ++k) {
+				tar_header_decoded_t out; int ret; size_t rest = 0;
+				sqfs_istream_t *fp = mem_stream(st + off, (size_t)len - off);
+				if (k > 0) fputs(" ; ", stdout);
+				cap_begin();
+				ret = read_header(fp, &out);
+				{ const char *d = cap_end(); if (ret < 0) printf("fail %d", classify(d, diag_rh)); }
+				if (ret > 0) fputs("eof", stdout);
+				if (ret == 0) {
+					sqfs_xattr_t *x; const sparse_map_t *sp; int first = 1;
+					sqfs_u64 skip = out.record_size;
+					fputs("ok name=", stdout);
+					hex_print(stdout, (unsigned char *)out.name, strlen(out.name));
+					fputs(" link=", stdout);
+					if (out.link_target) hex_print(stdout, (unsigned char *)out.link_target, strlen(out.link_target)); else putchar('~');
+					printf(" mode=%o uid=%" PRIu64 " gid=%" PRIu64 " mtime=%" PRId64 " size=%" PRIu64 " actual=%" PRIu64 " sparse=[",
+					       (unsigned)out.mode, (uint64_t)out.uid, (uint64_t)out.gid, (int64_t)out.mtime,
+					       (uint64_t)out.record_size, (uint64_t)out.actual_size);
+					for (sp = out.sparse; sp; sp = sp->next) { printf("%s%" PRIu64 ":%" PRIu64, first ? "" : " ", (uint64_t)sp->offset, (uint64_t)sp->count); first = 0; }
+					fputs("] xattr=[", stdout);
+					for (x = out.xattr; x != NULL; x = x->next) {
+						if (x != out.xattr) putchar(' ');
+						hex_print(stdout, (unsigned char *)x->key, strlen(x->key)); putchar('=');
+						hex_print(stdout, x->value, x->value_len);
+					}
+					rest = drain(fp);
+					printf("] unknown=%d hard=%d rest=%zu", out.unknown_record ? 1 : 0, out.is_hard_link ? 1 : 0, rest);
+					clear_header(&out);
+					sqfs_drop(fp);
+					if (skip > (sqfs_u64)rest) { fputs(" ; skipfail", stdout); break; }
+					if (skip % 512) skip += 512 - skip % 512;
+					if (skip > (sqfs_u64)rest) { fputs(" ; skipfail", stdout); break; }
+					off = (size_t)len - rest + (size_t)skip;
+					continue;
+				}
+				sqfs_drop(fp);
+				break;
+			}
+			if (k == 64) fputs(" ; more", stdout);
+			putchar('\n');
+			free(st);
 		} else if (!strcmp(op, "gl") && n >= 2) {
 			/* the reading loop of fstree_from_file_stream / xattr_open_map_file / sort file: get a line, use it,
 			   ++line_num, until istream_get_line says end of input */
